@@ -525,14 +525,11 @@ Definition json_plain (s : bytes) : bool := forallb json_plain_byte s.
 
 Definition int_safe (z : Z) : bool := Z.abs z <=? two53.
 
-(* strictly increasing keys: the canonical presentation of a Go map *)
+(* strictly increasing keys (checked pairwise): the canonical presentation of a Go map *)
 Fixpoint keys_sorted (ks : list bytes) : bool :=
   match ks with
   | [] => true
-  | k :: r => match r with
-              | [] => true
-              | k' :: _ => bleb k k' && negb (beqb k k') && keys_sorted r
-              end
+  | k :: r => forallb (fun k' => bleb k k' && negb (beqb k k')) r && keys_sorted r
   end.
 
 (* values whose JSON text (inside a list or map) is read back as [floatify v] *)
